@@ -596,7 +596,7 @@ def _hier(draw):
     if draw(st.integers(0, 9)) == 0:
         keys[draw(st.integers(0, depth))] = 'ed25519-0'
     return {'depth': depth, 'keys': keys, 'shared': draw(st.booleans()), 'constrained': draw(st.booleans()),
-            'ids': draw(st.permutations(IDS)), 'deviation': draw(st.sampled_from(DEVIATIONS)), 'link': draw(st.integers(0, 4)),
+            'ids': draw(st.permutations(IDS)), 'deviation': draw(st.sampled_from(DEVIATIONS + ['self-loop', 'self-loop', 'loop'])), 'link': draw(st.integers(0, 4)),
             'loose': draw(st.integers(0, 5)) == 0, 'overlap': draw(st.integers(0, 7)) == 0}
 
 
@@ -812,5 +812,5 @@ SUBCHECKS = {
                                        'first users again and a cross-signed forgery'),
     'burst': SubCheck(run_burst, strategy=lambda tier: _burst_case(), examples={'quick': 32, 'thorough': 300},
                       note='8..64 valid packets validated at the same time by one cold instance, chains of depth 2..4'),
-    'histories': SubCheck(run_case, strategy=lambda tier: _case(), examples={'quick': 500, 'thorough': 10000}),
+    'histories': SubCheck(run_case, strategy=lambda tier: _case(), examples={'quick': 1200, 'thorough': 10000}),
 }
